@@ -1,14 +1,68 @@
 """What MANIFEST.json claims (tools/gen_manifest.py renders it)."""
+_T = "Trusted: CPython ast; the reference tables of the rule module (DESIGN.md §4). Assumes loops run at least once. "
+_SA = "static analysis: "
 CHECKS = [
-    dict(
-        property_id="C07",
-        text="Static decision of necessary structural conditions of the Solver step: loss polynomial == sum weight_i*loss_i, "
-             "whole-range loop, step index, counter, ModuleList wrapping, optimizer over self.parameters(), registration of every "
-             "condition-held Parameter, gradient-reversal sign, effect-free validation. Trajectory equality is NOT decided.",
-        note="Assumes Lightning optimises the returned loss with the returned optimizer and nn.Module registration semantics; "
-             "loops run at least once. Trusted: CPython ast, the rule tables of sa/props/c07.py.",
-        technique="static analysis: path enumeration + def-use expansion, polynomial normal form, class-hierarchy queries",
-    ),
+    dict(property_id="C01",
+         text="Decides, for every sampling function of union/cut/intersection domains and boundaries, that the facts established about each "
+              "returned point set propositionally imply the class's own membership formula on every path (abstract interpretation, helpers under "
+              "call-site bindings); filtering samplers return only rows accepted on those rows; Translate/Rotate push-forward inverts the "
+              "pull-back; the dependent product samples A at the B points it returns. Geometry of primitives, tolerances and termination are NOT decided.",
+         note=_T + "Operand samplers/membership tests are correct (induction over the expression).",
+         technique=_SA + "abstract interpretation over fact formulas + truth tables; operator-word term algebra for motions"),
+    dict(property_id="C02",
+         text="Decides the row-layout discipline of the sampler layer: parameter-major replication primitive, admissible layout pairs at every join, "
+              "per-row loops (params[i] only, loop order, cut to n, guards re-initialised), sampler algebra, definite assignment on all paths, and "
+              "row-count agreement of the domain operations by finite instantiation over (n, k). Run-time shapes depending on user functions/data are NOT decided.",
+         note=_T + "Count equalities by finite instantiation on a fixed grid (reported as such).",
+         technique=_SA + "layout classification at join sites, loop-carried-state rule, definite assignment, row-count evaluation of expanded expressions"),
+    dict(property_id="C04",
+         text="Decides the dataflow shape of every sampler-driven Condition.forward: one draw per sampler, model/data/residual share one tracked draw, "
+              "residual mapping complete and name-keyed, reduce(error(residual)), documented (error, reduce) per class, SquaredError axis, data-condition "
+              "norms with the root last, sibling initialisation. Loss values and user callables are NOT decided.",
+         note=_T + "User residual/data functions are opaque.",
+         technique=_SA + "path enumeration with evaluation identities (same-origin provenance), structural matching of expanded expressions"),
+    dict(property_id="C05",
+         text="Decides exactly the Boolean structure of _contains of union/cut/intersection/product and their boundaries (truth table vs set algebra under "
+              "closedness/genericity), the pull-back structure of Translate/Rotate, row-wise evaluation of shape functions, the Cramer identity of the "
+              "barycentric solve, purity of membership tests and the name-based column selection. Primitive predicates and tolerances are NOT decided.",
+         note=_T,
+         technique=_SA + "Boolean formula extraction + truth tables, free-module term algebra, rational-function identities"),
+    dict(property_id="C07",
+         text="Static decision of necessary structural conditions of the Solver step: loss polynomial == sum weight_i*loss_i, whole-range loop, step "
+              "index, counter, ModuleList wrapping, optimizer over self.parameters(), registration of every condition-held Parameter, "
+              "gradient-reversal sign, effect-free validation. Trajectory equality is NOT decided.",
+         note=_T + "Lightning optimises the returned loss with the returned optimizer; nn.Module registration semantics.",
+         technique=_SA + "path enumeration + def-use expansion, polynomial normal form, class-hierarchy queries"),
+    dict(property_id="C08",
+         text="Decides that every point-wise model routes its input through the name-based re-ordering before any use (taint/must-pass-through), the "
+              "sanitiser itself, Parallel/Sequential composition structure, input-derived state, output labelling and the selection primitive. Row "
+              "independence of arbitrary tensor code is NOT decided (re-arranging ops are reported UNDECIDED).",
+         note=_T + "Sub-models handed to compositions are torchphysics Models.",
+         technique=_SA + "taint analysis on expanded path expressions, class-hierarchy attribute typing"),
+    dict(property_id="C12",
+         text="Decides the pairing rules of Points/Space: column order == space order at every concatenation, cumulative variable offsets, index and "
+              "space from one _compute_slice evaluation iterating the returned sub-space, space-preserving arithmetic, order-sensitive equality, "
+              "batch-axis-only repeat/unsqueeze. Tensor contents are NOT decided.",
+         note=_T + "Counter/OrderedDict key-order semantics of CPython.",
+         technique=_SA + "order pairing on expanded expressions, affine normal forms"),
+    dict(property_id="C13",
+         text="Decides the calling convention of UserFunction/DomainUserFunction: keyword-only invocation through one mapping, mapping = given ∪ default "
+              "selections over self.args, dominating required-name check, tail alignment of defaults, copy-on-partial-evaluation, no aliasing of "
+              "mutable defaults. What the user's function computes is NOT decided.",
+         note=_T + "Positional-or-keyword signatures (the property's quantifier).",
+         technique=_SA + "structural matching of expanded mappings, dominance on paths, alias/effect rules"),
+    dict(property_id="C15",
+         text="Decides the StaticSampler counter automaton in closed form (uses per drawn set == interval for every interval), cache/return discipline, "
+              "make_static, and for adaptive samplers the mask polarity/threshold polynomial, in-place same-mask row replacement and first-call adoption. "
+              "Randomness of the retained set is NOT decided.",
+         note=_T,
+         technique=_SA + "automaton extraction from path conditions, polynomial normal form of the threshold"),
+    dict(property_id="C16",
+         text="Decides the index algebra of the data sets: one permutation value on all coupled tensors/axes, identical windows on coupled tensors, "
+              "independent digits of the joint batch index with matching __len__, and exactly-once aggregation over the loader. Batches for concrete sizes "
+              "beyond the index algebra are NOT decided.",
+         note=_T + "torch DataLoader visits indices 0..len-1 once.",
+         technique=_SA + "evaluation identities for permutations, window descriptors, digit classification, helper inlining with conditional variants"),
 ]
 _PENDING = "check under construction in this round (static rule not yet armed); see DESIGN.md §4"
 NOT_APPLICABLE = [
